@@ -317,3 +317,30 @@ func AsReturn(in ssa.Instruction) (*ssa.Return, bool) {
 	}
 	return ret, true
 }
+
+// MayBeNilConst: v is the nil constant, or a join (phi, transitively) at least one way into which carries the nil
+// constant.  A `return err` whose err is nil on the good path and an error on the others - the shape a helper's
+// result takes once the helper is inlined, or a hand-written `var err error; if …{ err = … }; return err` - is a
+// successful exit just as `return nil` is.
+func MayBeNilConst(v ssa.Value) bool {
+	seen := map[ssa.Value]bool{}
+	var walk func(v ssa.Value) bool
+	walk = func(v ssa.Value) bool {
+		if seen[v] {
+			return false
+		}
+		seen[v] = true
+		if IsNilConst(v) {
+			return true
+		}
+		if p, ok := v.(*ssa.Phi); ok {
+			for _, e := range p.Edges {
+				if walk(e) {
+					return true
+				}
+			}
+		}
+		return false
+	}
+	return walk(v)
+}
